@@ -19,8 +19,20 @@ pub enum End {
     Stop,
     Discard,
     Overwrite,
+    /// the guard is dropped by the unwinding of a (caught) panic of its owner: still a drop
+    DropUnwinding,
 }
-pub const ENDS: [End; 4] = [End::Drop, End::Stop, End::Discard, End::Overwrite];
+pub const ENDS: [End; 5] = [End::Drop, End::Stop, End::Discard, End::Overwrite, End::DropUnwinding];
+
+fn drop_unwinding<T>(x: T) {
+    let prev = crate::QUIET_PANIC.with(|q| q.replace(true));
+    let r = std::panic::catch_unwind(std::panic::AssertUnwindSafe(move || {
+        let _owned = x;
+        panic!("expected: the guard's owner panics");
+    }));
+    crate::QUIET_PANIC.with(|q| q.set(prev));
+    assert!(r.is_err());
+}
 
 #[derive(Clone, Copy, PartialEq, Eq, Debug)]
 pub enum Op {
@@ -44,6 +56,7 @@ impl End {
     fn name(self) -> &'static str {
         match self {
             End::Drop => "drop",
+            End::DropUnwinding => "drop-by-unwinding",
             End::Stop => "stop",
             End::Discard => "discard",
             End::Overwrite => "overwrite",
@@ -251,6 +264,7 @@ fn end_owned(owned: &mut Vec<OwnedTimerGuard>, i: u8, e: End, step: usize, recs:
     let g = owned.remove(i as usize);
     match e {
         End::Drop => drop(g),
+        End::DropUnwinding => drop_unwinding(g),
         End::Stop => recs.push((step, Rec::Stop(g.stop()))),
         End::Discard => g.discard(),
         End::Overwrite => g.overwrite(),
@@ -304,6 +318,7 @@ pub fn exec(history: &[Op], inj: Inject, recs: &mut Vec<(usize, Rec)>) {
                             let g = guard.take().unwrap();
                             match e {
                                 End::Drop => drop(g),
+                                End::DropUnwinding => drop_unwinding(g),
                                 End::Stop => recs.push((i, Rec::Stop(g.stop()))),
                                 End::Discard => g.discard(),
                                 End::Overwrite => g.overwrite(),
@@ -376,7 +391,7 @@ impl Model {
         let span = self.now - start;
         match e {
             // a dropped or stopped guard completes its span
-            End::Drop => self.kept.push(span),
+            End::Drop | End::DropUnwinding => self.kept.push(span),
             End::Stop => {
                 self.kept.push(span);
                 return Some(Duration::from_secs(span));
